@@ -51,15 +51,15 @@ def run_impl(daemon, cases, nproc=None):
     """returns list of (tokens|None, notes) aligned with cases, and a list of (cfg, rc, stderr) for unclean daemons"""
     nproc = nproc or min(16, os.cpu_count() or 4)
     groups = {}
-    for i, (_, cfg, ev) in enumerate(cases):
-        groups.setdefault(cfg, []).append((i, ev))
+    for i, (name, cfg, ev) in enumerate(cases):
+        groups.setdefault(cfg, []).append((i, ev, name.startswith("pipe")))
     chunks = []
     for cfg, hs in groups.items():
         size = 6 if cfg[2] >= 0 else max(10, min(60, len(hs) // nproc + 1))
         for j in range(0, len(hs), size):
             chunks.append((daemon, cfg, hs[j:j + size]))
     # long (timed) chunks first
-    chunks.sort(key=lambda c: -sum(int(e[2:]) for _, ev in c[2] for e in ev if e[0] == "T"))
+    chunks.sort(key=lambda c: -sum(int(e[2:]) for h in c[2] for e in h[1] if e[0] == "T"))
     out = [None] * len(cases)
     bad = []
     with concurrent.futures.ProcessPoolExecutor(max_workers=nproc) as ex:
@@ -67,7 +67,7 @@ def run_impl(daemon, cases, nproc=None):
             for idx, toks, notes in res:
                 out[idx] = (toks, notes)
             if rc != 0 or "Sanitizer" in err or "runtime error" in err or "assertion failed" in err.lower():
-                bad.append((ch[1], rc, err, [ev for _, ev in ch[2]]))
+                bad.append((ch[1], rc, err, [h[1] for h in ch[2]]))
     return out, bad
 
 
@@ -167,7 +167,7 @@ def run_check(ctx, prop_id, cases, own_codes, nontrivial_classes, correspondence
     f7 = next((k for k in known if k["id"] == "F7"), None)
     if ctx.get("replay"):
         r = json.load(open(ctx["replay"]))["replay"]
-        cases = [("replay", tuple(r["cfg"]), list(r["events"]))]
+        cases = [(r.get("name") or "replay", tuple(r["cfg"]), list(r["events"]))]
     # dedupe
     seen, uniq = set(), []
     for c in cases:
@@ -188,7 +188,7 @@ def run_check(ctx, prop_id, cases, own_codes, nontrivial_classes, correspondence
     valid = [i for i in range(len(cases)) if itoks[i] is not None and mtoks[i] and not mtoks[i][0].startswith("?")]
     otoks, ocr = run_oracle(model_exe, [cases[i] for i in valid], [itoks[i] for i in valid])
     oracle = dict(zip(valid, otoks))
-    dist, nontrivial, steps_total, tainted, disagreements, illformed = {}, set(), 0, 0, 0, 0
+    dist, nontrivial, steps_total, tainted, disagreements, illformed, pipelined = {}, set(), 0, 0, 0, 0, 0
     for i, (name, cfg, ev) in enumerate(cases):
         replay = {"cfg": list(cfg), "events": ev, "name": name,
                   "how": "python3 tools/check.py %s --replay <this file>  (or: hist/oracle lines of build/ml/routing/model)" % prop_id}
@@ -216,6 +216,9 @@ def run_check(ctx, prop_id, cases, own_codes, nontrivial_classes, correspondence
             dist[c] = dist.get(c, 0) + 1
         if set(classes) & nontrivial_classes:
             nontrivial.add((cfg, tuple(ev)))
+        if notes.get("fifo_bad"):
+            rep.violation("messages written back to back by one connection arrived out of order at a recipient: %s" % (notes["fifo_bad"][:2],), dict(replay, impl=it))
+        pipelined += notes.get("pipelined", 0)
         if notes["intact_bad"]:
             rep.violation("a forwarded message was altered on its way (other than SENDER): %s" % (notes["intact_bad"][:2],), dict(replay, impl=it))
         # oracle flags on the observed behaviour
@@ -246,4 +249,4 @@ def run_check(ctx, prop_id, cases, own_codes, nontrivial_classes, correspondence
             rep.violation("model and implementation agree but break the specification at step %d `%s` -> `%s`: %s" % (j, ev[j], it[j], CODE_TEXT.get(c, c)),
                           dict(replay, impl=it, model=mt, oracle=oc, step=j))
     return {"cases": cases, "dist": dist, "nontrivial": nontrivial, "steps": steps_total, "tainted": tainted,
-            "disagreements": disagreements, "illformed": illformed, "mtoks": mtoks, "itoks": itoks, "oracle": oracle}
+            "disagreements": disagreements, "illformed": illformed, "pipelined": pipelined, "mtoks": mtoks, "itoks": itoks, "oracle": oracle}
